@@ -33,10 +33,12 @@ def gen_plan(seed, tier="quick", variant=None):
     rng = random.Random(seed * 48271 % (2 ** 31) + 13)
     thorough = tier == "thorough"
     if variant is None:
-        variant = rng.choice(["route", "route", "timeout", "close", "close_refresh", "cache", "cache", "garbage", "sweep"])
+        variant = rng.choice(["route", "route", "timeout", "close", "close_refresh", "cache", "cache", "garbage", "sweep", "unaware"])
     nb = rng.randint(1, 5 if thorough else 4)
     if variant == "close_refresh":
         nb = rng.randint(3, 5)
+    if variant == "unaware":
+        nb = rng.randint(2, 4)
     topics = []
     for i in range(rng.randint(1, 4)):
         np_ = rng.randint(1, 5)
@@ -56,6 +58,11 @@ def gen_plan(seed, tier="quick", variant=None):
         "warm": rng.random() < 0.6 or variant == "close_refresh",
         "coordinators": {g: rng.randint(1, nb) for g in GROUPS},
     }
+    r3 = random.Random(seed * 613 + 11)
+    if cfg["client"]["discover"] and r3.random() < 0.4:
+        from .cluster import version_table
+        tab = version_table(*r3.choice([(3, 3), (5, 6), (8, 11), (2, 11), (9, 2)]))
+        cfg["apiversions"] = {str(n): tab for n in range(1, nb + 1) if r3.random() < 0.8}
     horizon = rng.choice([0.1, 0.5, 2.0])
     ops = []
     all_tps = [(t["name"], p) for t in topics for p in range(t["parts"])]
@@ -190,6 +197,27 @@ def gen_plan(seed, tier="quick", variant=None):
         for j in range(rng.randint(1, 3)):
             ops.append({"t": round(horizon * (1.0 + 0.2 * j) + rng.random() * 0.05, 6), "op": "call", "id": 60 + j,
                         "kind": rng.choice(["metadata", "metadata", "metadata_all"]), "tps": [], "topics": sorted(set(tp[0] for tp in all_tps))})
+    if variant == "unaware":
+        # a broker-agnostic request when the only reachable broker is one the client already has an (idle, dropped) client
+        # for: every known broker must be tried before the caller is told "unavailable"
+        led = sorted(set(ld for t in topics for ld in t["leaders"] if ld > 0)) or [1]
+        x = rng.choice(led)
+        tp_x = [(t["name"], i) for t in topics for i, ld in enumerate(t["leaders"]) if ld == x] or [all_tps[0]]
+        cfg["warm"] = True
+        cfg["client"]["timeout_ms"] = rng.choice([300, 1000])
+        cfg["client"]["disconnect_on_timeout"] = False
+        ops = [{"t": 0.1, "op": "call", "id": 0, "kind": rng.choice(["fetch", "offsets"]), "tps": [rng.choice(tp_x)], "offset": 0, "max_bytes": 4096,
+                "max_wait": 0, "min_bytes": 1, "time": -1, "max_offsets": 1}]
+        if rng.random() < 0.5:
+            others = [tp for tp in all_tps if tp not in tp_x]
+            if others:
+                ops.append({"t": 0.15, "op": "call", "id": 1, "kind": "offsets", "tps": [rng.choice(others)], "time": -1, "max_offsets": 1})
+        t_drop = round(0.3 + rng.random() * 0.2, 6)
+        kind2 = rng.choice(["metadata", "metadata", "metadata_all", "coordinator"])
+        ops.append({"t": round(t_drop + 0.2 + rng.random() * 0.3, 6), "op": "call", "id": 5, "kind": kind2, "tps": [all_tps[0]], "topics": [all_tps[0][0]],
+                    "group": GROUPS[0], "offset": 0, "metadata": None, "generation": -1, "member": ""})
+        faults = [{"t": t_drop, "act": "cut_conns", "node": None},
+                  {"kind": "connect", "from_t": round(t_drop + 0.01, 6), "not_host": "b%d" % x, "what": rng.choice(["refused", "refused", "sync_fail", "dns"])}]
     if variant == "timeout" and rng.random() < 0.6:
         # several requests share connections while a broker goes silent for a few of them: the oldest times out first,
         # the younger ones are still unanswered at that instant
@@ -210,6 +238,13 @@ def gen_plan(seed, tier="quick", variant=None):
         faults.append({"api": None, "node": rng.choice([None, None] + list(range(1, nb + 1))), "nth": rng.randint(0, 2), "act": "silent", "count": rng.choice([1, 2, 3])})
     t_end = round(max([horizon * 1.6] + [f["t"] for f in faults if "t" in f] + [o["t"] for o in ops if "t" in o]) + 0.01, 6)
     return {"family": FAMILY, "seed": seed, "tier": tier, "cfg": cfg, "ops": ops, "faults": faults, "t_end": t_end}
+
+
+def _known_brokers(client):
+    try:
+        return {n: (bm.host, bm.port) for n, bm in client._brokers.items()}
+    except Exception:
+        return {}
 
 
 def plans_for(seed, tier):
@@ -249,7 +284,10 @@ def _run(w, plan):
 
     def connect_rule(att):
         for f in connect_rules:
-            if f["nth"] <= att["n"] < f["nth"] + f.get("count", 1):
+            if "from_t" in f:
+                if att["t"] >= f["from_t"] and att["host"] != f.get("not_host"):
+                    return {"kind": f["what"]}
+            elif f["nth"] <= att["n"] < f["nth"] + f.get("count", 1):
                 return {"kind": f["what"]}
         return None
 
@@ -323,7 +361,7 @@ def _run(w, plan):
             return
         kind = o["kind"]
         rec = {"id": o["id"], "kind": kind, "o": o, "t": sim.now, "seq": len(sim.log), "w": None, "payloads": None, "after_close": state["closed"],
-               "clients_before": dict(client.clients or {}), "cache_at_call": len(cache_versions) - 1, "timers_before": len([dc for dc in reactor.pending("client.py")]),
+               "clients_before": dict(client.clients or {}), "brokers_before": _known_brokers(client), "cache_at_call": len(cache_versions) - 1, "timers_before": len([dc for dc in reactor.pending("client.py")]),
                "versions_known": client._api_versions is not None}
         calls[o["id"]] = rec
         sim.record("op", "call", o["id"], kind)
@@ -743,6 +781,22 @@ def _oracles(w, plan, res, client, calls, state, cache_versions, unresolved, tim
         atts = [a for a in net.attempts if a["pid"] == "p0" and c["t"] - 1e-9 <= a["t"] <= wd.t + 1e-9 and a["host"] == "kafka"]
         if not atts:
             res.violate("C07", "C07:unavailable-before-bootstrap-hosts-were-tried", "call %d failed with KafkaUnavailableError without a bootstrap connection attempt" % c["id"])
+        # ... and every broker known when the call began (and still known when it ended) was tried: a request written to a
+        # connection to it, or a connection attempt to its address, during the call - or one was already under way / in
+        # back-off when the call began (then the request waited in that broker client's queue)
+        now_known = _known_brokers(client)
+        for n, addr in sorted(c.get("brokers_before", {}).items()):
+            if now_known.get(n) != addr:
+                continue
+            in_call = [a for a in net.attempts if a["pid"] == "p0" and (a["host"], a["port"]) == addr and c["t"] - 1e-9 <= a["t"] <= wd.t + 1e-9]
+            wrote = [f for f in written if (f["host"], f["port"]) == addr and c["t"] - 1e-9 <= f["t"] <= wd.t + 1e-9]
+            before = [a for a in net.attempts if a["pid"] == "p0" and (a["host"], a["port"]) == addr and a["t"] < c["t"]]
+            busy = bool(before) and before[-1]["outcome"] not in ("ok",)  # connecting or backing off when the call began
+            if in_call or wrote or busy:
+                continue
+            res.violate("C07", "C07:unavailable-although-a-known-broker-was-never-tried", "call %d (%s) failed with KafkaUnavailableError; broker %d at %s:%d was known throughout and "
+                        "saw neither a request nor a connection attempt" % (c["id"], c["kind"], n, addr[0], addr[1]))
+            break
     # ---------------- C05: decoded results equal what the independent codec encoded ----------------
     if not garbage_used:
         _check_c05(w, res, calls, APIKEY)
@@ -864,20 +918,19 @@ def _check_c05(w, res, calls, APIKEY):
                 res.violate("C05", "C05:well-formed-response-not-decoded:%s:%s" % (c["kind"], wd.err), "call %s failed with %r although no malformed byte was sent" % (
                     c["id"], wd.value))
     # metadata cache content versus the metadata frames is C08's job; ApiVersions:
-    for e in by_key.get(kwire.API_VERSIONS, []):
-        client = w.clients["p0"]
-        av = client._api_versions
-        if av in (None, 0) or e["resp_body"]["error"] != 0:
-            continue
-        res.oblige("C05")
-        want = [(v["key"], v["min"], v["max"]) for v in e["resp_body"]["versions"]]
+    client = w.clients["p0"]
+    av = client._api_versions
+    tables = [[(v["key"], v["min"], v["max"]) for v in e["resp_body"]["versions"]] for e in by_key.get(kwire.API_VERSIONS, [])
+              if e["resp_body"]["error"] == 0]
+    if av not in (None, 0) and tables:
         try:
             got = [(v.api_key, v.min_version, v.max_version) for v in av]
         except Exception:
-            continue
-        if got != want:
-            res.violate("C05", "C05:api-versions-differ", "decoded %r encoded %r" % (got[:4], want[:4]))
-        break
+            got = None
+        if got is not None:
+            res.oblige("C05")
+            if got not in tables:  # (brokers may advertise different tables: the client holds one of the answers it was given)
+                res.violate("C05", "C05:api-versions-differ", "decoded %r, encoded by the brokers: %r" % (got[:4], [t[:4] for t in tables[:2]]))
 
 
 def _check_c08(w, res, client, calls, state):
